@@ -78,10 +78,10 @@ struct world {
   crab::tag_manager tm;
   std::vector<crab::tag> sites;
   std::vector<var_t> R, G;
-  var_t I, X, Vv;
+  var_t I, X, Vv, Bc;
   dom_t D, D2;
   conc_t c, c2;
-  world() : I(vf["i"], crab::INT_TYPE, 32), X(vf["x"], crab::INT_TYPE, 32), Vv(vf["v"], crab::INT_TYPE, 32) {
+  world() : I(vf["i"], crab::INT_TYPE, 32), X(vf["x"], crab::INT_TYPE, 32), Vv(vf["v"], crab::INT_TYPE, 32), Bc(vf["bc"], crab::BOOL_TYPE, 1) {
     for (int k = 0; k < NREF; k++) R.push_back(var_t(vf["p" + std::to_string(k)], crab::REF_TYPE, 32));
     G.push_back(var_t(vf["R0"], crab::REG_INT_TYPE, 32));
     G.push_back(var_t(vf["R1"], crab::REG_INT_TYPE, 32));
@@ -238,6 +238,24 @@ static void step(world &W, const std::string &opstr) {
     W.D.int_to_ref(W.I, W.G[I(2)], W.R[p]);
     W.c.r[p].addr = W.c.i;
     W.c.r[p].site = term(-1);
+  } else if (op == "sel" || op == "seln") { // l := cond ? p : q (q = null for seln); the condition is an unconstrained Boolean    sel.l.g.p.gp.q.gq   seln.l.g.p.gp
+    int l = I(1), g = I(2), p = I(3), gp = I(4);
+    term b = fresh("cond");
+    sx::assume(b >= term(0) && b <= term(1));
+    W.D -= W.Bc;
+    cref nv = W.c.r[p];
+    if (op == "sel") {
+      int q = I(5), gq = I(6);
+      W.D.select_ref(W.R[l], W.G[g], W.Bc, voc_t(W.R[p]), boost::optional<var_t>(W.G[gp]), voc_t(W.R[q]), boost::optional<var_t>(W.G[gq]));
+      nv.addr = sx::ite(b == term(1), W.c.r[p].addr, W.c.r[q].addr);
+      nv.site = sx::ite(b == term(1), W.c.r[p].site, W.c.r[q].site);
+    } else {
+      W.D.select_ref(W.R[l], W.G[g], W.Bc, voc_t(W.R[p]), boost::optional<var_t>(W.G[gp]), voc_t::make_reference_null(), boost::none);
+      nv.addr = sx::ite(b == term(1), W.c.r[p].addr, term(0));
+      nv.site = sx::ite(b == term(1), W.c.r[p].site, term(-1));
+    }
+    W.c.r[l] = nv;
+    check_ref_queries(W, l, "select_ref");
   } else if (op == "rcopy") { // region_copy(lhs, rhs)    rcopy.lhs.rhs
     W.D.region_copy(W.G[I(1)], W.G[I(2)]);
     W.c.mem[I(1)] = W.c.mem[I(2)];
